@@ -169,6 +169,8 @@ type env struct {
 
 	statBack map[string]bool
 	freshN   int
+	// readerKind: how the in-memory backend's Open delivers content.
+	readerKind string
 }
 
 func (e *env) report(op, field, how, what string, w witness) {
@@ -492,6 +494,14 @@ func (e *env) doOpen(abs string, f nameForm, data []byte) {
 	}
 	e.count("Open", f.form, f.name)
 	e.c.Observe("content sizes", sizeBucket(len(data)), 1)
+	if e.backend == "mem" {
+		e.c.Observe("mem: Open by reader behaviour of the backend", e.readerKind, 1)
+		for _, ps := range probeSizes {
+			if len(data) == ps {
+				e.c.Observe("mem: Open of boundary-sized files (reader behaviour, bytes)", fmt.Sprintf("%s, %d", e.readerKind, ps), 1)
+			}
+		}
+	}
 	if err != nil {
 		w.Got = err.Error()
 		e.report("Open", "result", errClass(err), fmt.Sprintf("Open(%q) fails on an existing file: %v", f.name, err), w)
@@ -699,10 +709,82 @@ func (e *env) readPhase() {
 			}
 			continue
 		}
+		e.doStatFileSlash(abs)
 		if e.backend == "mem" && !n.Openable {
 			continue
 		}
 		e.doOpen(abs, e.anyForm(n.Segs, false), n.Data)
+		e.doOpenFileSlash(abs, n.Data)
+	}
+}
+
+// backendStat asks the backend directly (not through HTTP) about a name.
+func (e *env) backendStat(name string) (*webdav.FileInfo, error) {
+	if e.backend == "mem" {
+		return e.mem.Stat(e.ctx, name)
+	}
+	return e.lfs.Stat(e.ctx, name)
+}
+
+// doStatFileSlash: a plain file named by its absolute path plus a trailing
+// slash. Whether that names the file is the backend's decision (both backends
+// here resolve it to the file); the server may also refuse. But if Stat
+// succeeds, everything it reports must be the backend's own answer for that
+// very name.
+func (e *env) doStatFileSlash(abs string) {
+	name := abs + "/"
+	ref, rerr := e.backendStat(name)
+	if rerr != nil || ref == nil {
+		e.c.Observe("file named with a trailing slash", "backend refuses the name itself (not judged)", 1)
+		return
+	}
+	w := witness{Name: q(name)}
+	var fi *webdav.FileInfo
+	var err error
+	if !e.call("Stat", w, func() { fi, err = e.cl.Stat(e.ctx, name) }) {
+		return
+	}
+	e.count("Stat", "abs/ (file)", name)
+	if err != nil {
+		e.c.Observe("file named with a trailing slash", "Stat refused: "+errClass(err)+" (accepted)", 1)
+		return
+	}
+	e.c.Observe("file named with a trailing slash", "Stat answered, compared with the backend's own answer", 1)
+	want := wantInfo{Path: ref.Path, IsDir: ref.IsDir, Size: ref.Size, ModTime: ref.ModTime, MIME: ref.MIMEType, ETag: ref.ETag}
+	if fi != nil && sameRes(fi.Path, ref.Path) {
+		want.Path = fi.Path // either spelling of the same name
+	}
+	e.checkInfo("Stat", w, want, fi)
+}
+
+// doOpenFileSlash: same name form for Open; a refusal is accepted, bytes are not.
+func (e *env) doOpenFileSlash(abs string, data []byte) {
+	name := abs + "/"
+	if ref, rerr := e.backendStat(name); rerr != nil || ref == nil || ref.IsDir {
+		return
+	}
+	w := witness{Name: q(name)}
+	var got []byte
+	var err, rerr error
+	if !e.call("Open", w, func() {
+		var rc io.ReadCloser
+		rc, err = e.cl.Open(e.ctx, name)
+		if err == nil {
+			got, rerr = ioutil.ReadAll(rc)
+			rc.Close()
+		}
+	}) {
+		return
+	}
+	e.count("Open", "abs/ (file)", name)
+	if err != nil {
+		e.c.Observe("file named with a trailing slash", "Open refused: "+errClass(err)+" (accepted)", 1)
+		return
+	}
+	e.c.Observe("file named with a trailing slash", "Open answered, bytes compared", 1)
+	if rerr != nil || !bytes.Equal(got, data) {
+		w.Want, w.Got = mon.DataKey(string(data)), mon.DataKey(string(got))+" read error: "+fw.ErrString(rerr)
+		e.report("Open", "bytes", bytesDiff(data, got), fmt.Sprintf("Open(%q): %d bytes read (read error %v), backend holds %d", name, len(got), rerr, len(data)), w)
 	}
 }
 
@@ -1252,6 +1334,13 @@ func (e *env) buildLocal() error {
 
 func (e *env) buildMem() {
 	e.mem = doubles.NewMemFS()
+	// The io.Reader contract leaves the backend free to deliver short reads
+	// and to return the last bytes together with io.EOF: each combination
+	// gets a quarter of the scenarios.
+	k := (e.idx / len(endpoints)) % 4
+	e.mem.DataErr = k&1 != 0
+	e.mem.SmallReads = k&2 != 0
+	e.readerKind = []string{"plain bytes.Reader", "last bytes with io.EOF", "<=7 bytes per Read", "<=7 bytes per Read + last bytes with io.EOF"}[k]
 	for _, n := range e.t.Nodes {
 		genInfo(e.r, n)
 		if len(n.Segs) == 0 {
@@ -1274,7 +1363,11 @@ func runScenario(c *fw.Ctx, backend, transport string, idx int) {
 		big = 2
 	}
 	wide := idx%17 == 7
-	e.t = genTree(r, e.ep.Segs, big, wide)
+	probes := 0
+	if backend == "mem" {
+		probes = 4
+	}
+	e.t = genTree(r, e.ep.Segs, big, wide, probes)
 
 	var h *webdav.Handler
 	if backend == "local" {
@@ -1396,6 +1489,8 @@ func init() {
 			"zero ModTime / empty ETag / empty MIMEType mean 'not available' and must come back zero / empty",
 			"modification times are compared as instants truncated to the second; instants are kept within years 0001-9999 UTC",
 			"Open is only issued for files whose recorded size equals the content length (otherwise the GET response itself is malformed)",
+			"a plain file named with a trailing slash ('/f.txt/'): a refusal by server or client is accepted; if Stat/Open succeed, kind, size, time, type, tag and bytes must be what the backend itself answers for that same name (backend's Stat called directly)",
+			"the in-memory backend's Open delivers content in each of four ways the io.Reader contract allows (plain, <=7 bytes per Read, last bytes together with io.EOF, both); every scenario of that backend adds 4 always-readable files whose lengths sit on copy-loop boundaries (0, 1, 6-8, 14, 32 KiB and 64 KiB +-1, 96 KiB, 200000, 256 KiB, 400000)",
 			"return values of mutators (error or nil) are tabulated, not judged: the statement speaks of what reaches the backend",
 			"LocalFileSystem copies of non-empty collections with recursion, and copies/moves onto self, ancestors or descendants, are C01/C02 territory and not issued here",
 			"relative names are resolved by appending to the endpoint path taken as a collection and removing dot segments (own implementation, independent of path.Join)",
